@@ -7,6 +7,22 @@ from props import c01
 STATIC = ["Model/Elab.v", "Model/Lower.v", "Model/IREq.v"]
 
 
+FORMS = [
+    ("export function f(int a, int) -> int { return a * 2 + 1; }", {}),
+    ("export function f(int a, int) -> int { return a * 2 + 1; }", {"optimize": True}),
+    ("export function f(int a, int) -> int { return a * 2 + 1; }", {"wasm": True}),
+    ("function pick(int, int b) -> int { return b; }\nfunction pick(float a, float) -> float { return a; }\nexport function f(int a, int b) -> int { return pick(a, b) + pick(b, a); }", {}),
+    ("function k(float, float b, float c) -> float { return c; }\nexport function m(uint a, uint) -> uint { return a / a; }", {"optimize": True}),
+    ("export function m(uint a, uint) -> uint { return a / a; }", {"wasm": True}),
+    ("function h(int, int, int) -> int { return 3; }\nexport function f(int x) -> int { return h(x, x, x) + 0x10 + 017; }", {}),
+    ("function later(int a) -> int;\nexport function f(int a) -> int { return later(a) + 1; }\nfunction later(int a) -> int { return a * 2; }", {}),
+    ("export function f(__optional int a, int b) -> int { return a + b; }", {}),
+    ("[packed] [aligned] struct S { int a; float b; }\nexport function f(int a) -> int { S s; s.a = a; return s.a; }", {"optimize": True}),
+    ("import \"std\";\nexport function f(float a) -> float { return a; }", {}),
+    ("int g;\nexport function w(int v, float) -> void { g = v; }", {"optimize": True}),
+]
+
+
 def wasm_programs(rng, n):
     import genwasm
     g = genwasm.WGen(rng)
@@ -32,6 +48,10 @@ def run(ctx):
     for m in wasm_programs(rng, 30 if quick else 400):
         text, _ = nslgen.render(m, "canonical", rng)
         targets.append(("wasm", None, text, {"wasm": True}))
+    # syntax the generators never produce: unnamed and __optional arguments, prototypes, annotated structures, octal / hexadecimal literals,
+    # overloads that differ only in an unnamed argument, import lines
+    for text, opts in FORMS:
+        targets.append(("forms", None, text, opts))
     # programs with several imports would need stored modules; the import *set* is covered by sources with two import lines that fail to load identically
     seeds = ["0", "1", "12345", "4294967295"] if quick else ["0", "1", "2", "3", "7", "12345", "99999", "4294967295"]
     # histories: none; the target itself; other targets (some rejected programs included); a long mixed history; the same Compiler object reused
@@ -83,8 +103,9 @@ def run(ctx):
     ctx.cov["evaluations"] = len(targets) * NH * len(seeds)
     ctx.cov["distinct_nontrivial"] = len({t[2] + str(t[3]) for t in targets})
     ctx.cov["programs"] = len(targets)
-    ctx.cov["rule"] = ("targets: programs of the C01 generator at both optimisation settings, of the C04 vector generator, and scalar straight-line modules compiled with the WebAssembly "
-                       "option; each compiled in %d processes with different PYTHONHASHSEED values x 5 histories (fresh process; the same source compiled just before; three other sources and a "
+    ctx.cov["rule"] = ("targets: programs of the C01 generator at both optimisation settings, of the C04 vector generator, scalar straight-line modules compiled with the WebAssembly "
+                       "option, and hand-written sources using the syntax the generators never produce (unnamed and __optional arguments, overloads differing in an unnamed argument, prototypes, "
+                       "annotated structures, octal / hexadecimal literals, an import line); each compiled in %d processes with different PYTHONHASHSEED values x 5 histories (fresh process; the same source compiled just before; three other sources and a "
                        "syntax error before; eight other sources before; the same source with the other optimisation setting and a rejected program before), always with a fresh Compiler object as the property states (a Compiler object is not reusable: its visitors keep state). Compared: InstructionPrinter listing, import list, global "
                        "list, WebAssembly bytes (text equality across all %d combinations per target); for unoptimised core targets the structural IR is also compared inside Coq with the "
                        "lowering model's output for the source. Distinct = distinct (source, options)." % (len(seeds), NH * len(seeds)))
